@@ -191,6 +191,9 @@ def untame_zones():
     out.append(Zone('untame/notrans-rule', T.write(z), 'untame'))
     z = T.make_rule_zone(b'CET-1CEST,M3.5.0,M10.5.0/3', version=2, first_year=1200, last_year=1250, start_year=1100)
     out.append(Zone('untame/records-end-1250', T.write(z), 'untame'))
+    # RFC 8536 allows a transition at the very first representable instant
+    z = T.TZif(2, [I64MIN, -2208988800, 946684800], [1, 2, 1], [(-17762, False, 0), (-18000, False, 4), (-14400, True, 8)], b'LMT\0EST\0EDT\0', b'')
+    out.append(Zone('untame/first-transition-at-int64-min', T.write(z), 'untame'))
     return out
 
 
